@@ -40,6 +40,7 @@ var tmActions = []string{"updateRoute", "restoreGateway", "removeCanaryService",
 func (rollouttrEngine) Gen(r *rand.Rand, idx int, tier string) any {
 	base := rolloutsmEngine{}.Gen(r, idx, tier).(RInput)
 	x := TRExt{ZeroGrace: chance(r, 15), FailGateway: chance(r, 7)}
+	x.FailWlRead = !x.FailGateway && chance(r, 6)
 	w := 0
 	for i := range base.Steps {
 		s := TMStrategy{}
@@ -169,5 +170,5 @@ func (rollouttrEngine) Coq(inAny any, obsAny any) string {
 	pend := emit.ListOf(in.X.Pending, func(p TRPending) string { return emit.Pair(tmActionNames[p.Action], emit.Bool(p.Elapsed)) })
 	opend := emit.ListOf(obs.X.Pending, func(p string) string { return tmActionNames[p] })
 	return emit.App("Build_trcase", inner, emit.ListOf(in.X.Strategies, coqTMStrategy), emit.Bool(in.X.ZeroGrace), emit.Bool(in.X.FailGateway), coqTMNet(in.X.Net), pend,
-		coqTMNet(obs.X.Net), emit.ListOf(obs.X.Writes, emit.Str), opend)
+		coqTMNet(obs.X.Net), emit.ListOf(obs.X.Writes, emit.Str), opend, emit.Bool(in.X.FailWlRead))
 }
